@@ -41,11 +41,11 @@ type c13Ctx struct {
 	err  error
 }
 
-func newC13Ctx() *c13Ctx                                  { return &c13Ctx{done: make(chan struct{})} }
-func (c *c13Ctx) Deadline() (time.Time, bool)             { return time.Time{}, false }
-func (c *c13Ctx) Done() <-chan struct{}                   { return c.done }
-func (c *c13Ctx) Value(key interface{}) interface{}       { return nil }
-func (c *c13Ctx) Err() error                              { c.mu.Lock(); defer c.mu.Unlock(); return c.err }
+func newC13Ctx() *c13Ctx                            { return &c13Ctx{done: make(chan struct{})} }
+func (c *c13Ctx) Deadline() (time.Time, bool)       { return time.Time{}, false }
+func (c *c13Ctx) Done() <-chan struct{}             { return c.done }
+func (c *c13Ctx) Value(key interface{}) interface{} { return nil }
+func (c *c13Ctx) Err() error                        { c.mu.Lock(); defer c.mu.Unlock(); return c.err }
 func (c *c13Ctx) end(err error) {
 	c.mu.Lock()
 	if c.err == nil {
@@ -534,7 +534,7 @@ type c13Conn struct {
 	connected   bool
 	lastAnswer  time.Time
 	firstClose  time.Time
-	clientClose int  // Close calls by the client before the peer dropped the connection
+	clientClose int // Close calls by the client before the peer dropped the connection
 	peerDropped bool
 }
 
@@ -1128,7 +1128,7 @@ func runC13(cfg *runCfg) error {
 		nRand, maxLen = 4000, 120
 	}
 	if search {
-		nRand = 1500
+		nRand = 700
 	}
 	for i := 0; i < nRand; i++ {
 		n := r.Intn(maxLen)
